@@ -976,7 +976,8 @@ func init() {
 			case 0:
 				p = []int{80, 0}
 			case 1:
-				it = []string{"80", common.Pick(r, []string{"x", "0", "70000", "5-3", "7-7", "1-2-3", "", "0-5", "5-70000"})}
+				// the refused item first: a trailing empty item ("80,") is accepted by Parse
+				it = []string{common.Pick(r, []string{"x", "0", "70000", "5-3", "7-7", "1-2-3", "", "0-5", "5-70000"}), "80"}
 			case 2:
 				it = []string{"1-65535"}
 			default:
